@@ -39,7 +39,7 @@ MAX_NETS = 4
 MAX_HANDLES = 48
 
 RULE = (
-    "histories: random operation sequences (quick 300 x <=30 ops, thorough 2000 x <=45) over <=4 live networks sharing "
+    "histories: random operation sequences (quick 300 x <=30 ops, thorough 1200 x <=40) over <=4 live networks sharing "
     "tensors (views, copies, deep copies, pickling round trips, selections, partitions, garbage-collected views), ops "
     "chosen on-line from the alphabet of coq/C02/Model.v with ~20% deliberately invalid calls (must raise on both sides, "
     "state unchanged); buckets: main (inside the theorem's domain), repeated_label (a label twice on one tensor), "
@@ -1115,8 +1115,8 @@ def correspondence(ctx):
 
     gc.collect()
     gc.freeze()  # later gc.collect() calls only look at objects created by the histories
-    nseq = ctx.n(300, 2000)
-    maxops = ctx.n(30, 45)
+    nseq = ctx.n(300, 1200)
+    maxops = ctx.n(30, 40)
     rng = ctx.rng
     cases, info = corpus_cases(ctx)
     for cid in range(1, nseq + 1):
@@ -1308,8 +1308,11 @@ def net_problems(tn, view=False):
     except Exception as e:
         # a view keeps tensors that the rewritten network dropped: resizing a shared tensor through the other
         # network legitimately leaves the view with unequal sizes (not a bookkeeping defect) - only for views
-        if not (view and str(e).startswith("Mismatched index dimension")):
-            out.append("check:" + str(e)[:60])
+        msg = str(e)
+        if "non-finite" in msg:
+            pass  # numerics (e.g. normalising an all-zero tensor), not bookkeeping
+        elif not (view and msg.startswith("Mismatched index dimension")):
+            out.append("check:" + msg[:60])
     for tid, t in tn.tensor_map.items():
         ok = any((ref() is tn and rtid == tid) for ref, rtid in t._owners.values())
         if not ok:
@@ -1327,8 +1330,13 @@ def numeric_ops(rng, qtn, tn):
     outer = list(tn.outer_inds())
     ops = []
     pick = rng.choice
-    if len(ttags) >= 2:
-        a, b = rng.sample(ttags, 2)
+    # two tags that identify two different single tensors
+    single = {}
+    for f in ttags:
+        if len(tn.tag_map[f]) == 1:
+            single.setdefault(next(iter(tn.tag_map[f])), f)
+    if len(single) >= 2:
+        a, b = [single[t] for t in rng.sample(sorted(single), 2)]
         ops.append(("contract_tags", lambda: tn.contract_tags([a, b], which="any", inplace=True, output_inds=None)
                     if not any(len(v) > 2 for v in tn.ind_map.values()) else None))
         ops.append(("contract_between", lambda: tn.contract_between(a, b)
@@ -1413,7 +1421,7 @@ def numeric_stream(ctx):
     import quimb.tensor as qtn
 
     rng = ctx.rng
-    for it in range(ctx.n(150, 1500)):
+    for it in range(ctx.n(150, 1000)):
         tn, _ = random_network(rng, qtn, rng.randint(2, 5), hyper=(rng.random() < 0.15))
         views = []
         trace = []
@@ -1423,9 +1431,11 @@ def numeric_stream(ctx):
                 kind = rng.randrange(4)
                 if kind == 0:
                     views.append(("copy_virtual", tn.copy(virtual=True)))
-                elif kind == 1:
+                elif kind == 1 and tn.tag_map:
                     g = rng.choice(list(tn.tag_map))
                     views.append(("select:" + g, tn.select(g, virtual=True)))
+                elif kind == 1:
+                    views.append(("copy_virtual", tn.copy(virtual=True)))
                 elif kind == 2:
                     views.append(("copy", tn.copy()))
                 else:
@@ -1435,9 +1445,15 @@ def numeric_stream(ctx):
                     if rng.random() < 0.3:
                         gc.collect()
             ops = numeric_ops(rng, qtn, tn)
+            if any(len(v) > 2 for v in tn.ind_map.values()):
+                # hyper-indices: decompositions / pairwise gates are documented for ordinary networks only
+                safe = ("isel_inner", "isel_outer", "conj", "multiply", "retag_reindex", "tensor_transpose",
+                        "tensor_new_ind", "squeeze", "tensor_squeeze", "new_bond", "tensor_fuse")
+                ops = [o for o in ops if o[0] in safe]
             if not ops:
                 break
             name, thunk = rng.choice(ops)
+            before = {str(tid): [list(t.inds), list(t.shape), sorted(t.tags)] for tid, t in tn.tensor_map.items()}
             try:
                 thunk()
             except Exception as e:
@@ -1457,7 +1473,10 @@ def numeric_stream(ctx):
                 if rep and what == "inner_outer":
                     key = "inner_outer:repeated_label"
                 ctx.violation(key, f"after {' -> '.join(trace)} the {where} network's {what} disagrees with a fresh scan",
-                              {"stream": "numeric", "iteration": it, "trace": trace, "seed": ctx.seed})
+                              {"stream": "numeric", "iteration": it, "trace": trace, "seed": ctx.seed, "last_op": name,
+                               "tensors_before_last_op": before,
+                               "tensors_after": {str(tid): [list(t.inds), list(t.shape), sorted(t.tags)]
+                                                 for tid, t in tn.tensor_map.items()}})
                 break
 
 
@@ -1467,7 +1486,7 @@ def combine_stream(ctx):
     import quimb.tensor as qtn
 
     rng = ctx.rng
-    for it in range(ctx.n(200, 2000)):
+    for it in range(ctx.n(200, 1500)):
         a, _ = random_network(rng, qtn, rng.randint(1, 4))
         mode = rng.randrange(3)
         if mode == 0:
